@@ -100,10 +100,11 @@ def h_print(ctx, nsp, namelen, fmt, space, delim):
 def h_to_string(ctx, ts, rd, sd):
     """Reaction.to_string assembles reactants, transition state, products with the requested delimiters"""
     from pmutt.reaction import Reaction
-    A, B, C, T = (_name(ctx, t, 2) for t in ('A', 'B', 'C', 'T'))
-    nu = [ctx.real('nu%d' % i, 0.25, 4) for i in range(4)]
-    rxn = Reaction(reactants=[Sp(ctx.string(A)), Sp(ctx.string(B))], reactants_stoich=[nu[0], nu[1]], products=[Sp(ctx.string(C))],
-                   products_stoich=[nu[2]], transition_state=[Sp(ctx.string(T))] if ts else None, transition_state_stoich=[nu[3]] if ts else None)
+    A, B, C, D, T, T2 = (_name(ctx, t, 2) for t in ('A', 'B', 'C', 'D', 'T', 'U'))
+    nu = [ctx.real('nu%d' % i, 0.25, 4) for i in range(6)]
+    rxn = Reaction(reactants=[Sp(ctx.string(A)), Sp(ctx.string(B))], reactants_stoich=[nu[0], nu[1]],
+                   products=[Sp(ctx.string(C)), Sp(ctx.string(D))], products_stoich=[nu[2], nu[4]],
+                   transition_state=[Sp(ctx.string(T)), Sp(ctx.string(T2))] if ts else None, transition_state_stoich=[nu[3], nu[5]] if ts else None)
     out = rxn.to_string(species_delimiter=sd, reaction_delimiter=rd)
     states = out.split(rd)
     ctx.true('states separated by the reaction delimiter', len(states) == (3 if ts else 2))
@@ -112,8 +113,8 @@ def h_to_string(ctx, ts, rd, sd):
     from pmutt.reaction import _write_reaction_state
     want = [_write_reaction_state([Sp(ctx.string(A)), Sp(ctx.string(B))], [nu[0], nu[1]], species_delimiter=sd)]
     if ts:
-        want.append(_write_reaction_state([Sp(ctx.string(T))], [nu[3]], species_delimiter=sd))
-    want.append(_write_reaction_state([Sp(ctx.string(C))], [nu[2]], species_delimiter=sd))
+        want.append(_write_reaction_state([Sp(ctx.string(T)), Sp(ctx.string(T2))], [nu[3], nu[5]], species_delimiter=sd))
+    want.append(_write_reaction_state([Sp(ctx.string(C)), Sp(ctx.string(D))], [nu[2], nu[4]], species_delimiter=sd))
     for k, (g, w) in enumerate(zip(states, want)):
         ctx.true('state %d printed with the species delimiter' % k, g == w)
     ctx.true('str(reaction) is to_string()', rxn.__str__() == rxn.to_string())
